@@ -45,6 +45,12 @@ def replay (j : Json) : R Verdict := do
       tags := s!"run:barrier-nc={nc}" :: tags
       if maxLive < Nat.min nc n then
         pf := pf ++ [s!"C05: threaded launcher, num_concurrent {nc}, budget {n}: at most {maxLive} evaluations were ever in progress at once (the others waited although slots and budget were free)"]
+    match (fieldD j "stalledStarted").getNat?.toOption with
+    | some k =>
+      tags := "run:stalled-report-sink" :: tags
+      if k < n then
+        pf := pf ++ [s!"C05: while the detailed report file could not be written (a FIFO nobody read yet; budget {n}, far below the report channel's capacity) only {k} of {n} evaluations were started: finished evaluations were not replaced although slots and budget were free"]
+    | none => pure ()
     let reachable := match c.target with | some t => F64.le (.fin 0) t | none => false   -- 1e9: reached by the first accepted result
     let okj := ret.getObjVal? "ok"
     match okj with
